@@ -81,11 +81,11 @@ class RecursiveSigner:
             raise ValueError(
                 f"key-name not found in {envelope_name}, but signing is required (omit-signing is not set)."
             )
-        self.key_name = envelope_json["key-name"]
+        self.key_name = envelope_json.get("key-name")
 
         if "key-id" not in envelope_json and not self.omit_signing:
             raise ValueError(f"key-id not found in {envelope_name}, but signing is required (omit-signing is not set).")
-        self.key_id = int(envelope_json["key-id"], 0)
+        self.key_id = int(envelope_json["key-id"], 0) if "key-id" in envelope_json else None
 
         if "sign-script" in envelope_json:
             self.sign_script = envelope_json["sign-script"]
